@@ -51,6 +51,31 @@ TEXT = {
   level="Fault enumeration: for every generated record (single, multi-namespace, split into 2-4 lines) every first-write size k in 1..L is tried for vectored and plain writers, then hundreds of random scripts of short writes / Interrupted / Ok(0) / hard errors; received bytes must be a permutation of the reference lines (or a prefix of one on error) and the next entry must be intact. Sinks (queue, FlushImmediately x3, tee) are driven with streams that fail per entry and on flush; each stream must see every entry exactly once.",
   note="Trusted: the scripted writer/stream as fault model; reference bytes from a Vec writer.",
   ref="DESIGN.md §7 C16"),
+ "C06": dict(
+  technique="runtime monitoring: append events at a counting sink vs reference condition over exhaustively enumerated single-thread histories and concurrent drop/creation histories; Miri + TSan",
+  level="Exploration over histories and schedules: (a) every single-thread create/drop history over owner, <=3 handles, <=3 flush guards, <=2 force-flush guards within an object bound is executed against the real types and the append count is compared with the reference condition after every operation; (b) the drops of random histories are dealt to 2-4 threads (perturbed at the keep-alive hook points) and flush guards are created concurrently from &owner; exactly one append, not before the drops any linearization needs, content = the owner's last tokens. Miri checks the UnsafeCell / unsafe Send+Sync protocol for races, UB and leaks.",
+  note="Trusted: the counting sink (ticket under its lock) as observation point; LIFO symmetry reduction among guards of one kind.",
+  ref="DESIGN.md §7 C06"),
+ "C10": dict(
+  technique="runtime monitoring: conservation oracle over aggregates received by an inspector sink, unique input ids; Miri + TSan",
+  level="Exploration over histories, schedules and inputs: inputs with unique ids and colliding (or thousands of distinct) keys merged into KeyedAggregator (by value/ref, several flush epochs), TeeSink, embedded Aggregate / MutexSink with merge-on-drop guards, WorkerSink with 1-8 producers, flush barriers and drop of the last handle. The oracle partitions the emitted aggregates by input id and checks sum / distribution / keep-last / one aggregate per key and flush / flush barrier / worker termination.",
+  note="Trusted: inspector sink; Drop wrapper around the inner sink for termination; progress watchdog with the flush-call counter as evidence.",
+  ref="DESIGN.md §7 C10"),
+ "C11": dict(
+  technique="runtime monitoring: differential of closed histogram observations against the recorded inputs (sorted matching), atomic vs non-atomic vs concurrent, re-aggregation; TSan",
+  level="Exploration over inputs and schedules: every bucket boundary of the layout (from the formula) +-1, dense linear region, log-uniform values, repeated observations up to 2^40 occurrences, integer/float/Duration/unit-converted sources; conservation of counts, per-observation error bound, exact sort-and-merge output, equality of atomic / non-atomic / concurrently recorded histograms, and re-aggregation stability.",
+  note="Trusted: the value of a Repeated source is total/n in f64; counts < 2^40.",
+  ref="DESIGN.md §7 C11"),
+ "C12": dict(
+  technique="runtime monitoring: exact-rational oracle on the hooked rate->weight split, scripted-RNG differential on sampling decisions, invariants on hooked congressional rates",
+  level="Exploration over inputs and histories: the weight split is checked against the exact rational 1/rate for millions of f32 rates (thorough: every f32 in (0,1]) at both extreme draws incl. the expectation; the public sampled formatter's Counts must imply that one weight; FixedFractionSample/CongressSample decisions are compared with draw <= rate where the draw is recomputed by rand itself (the draw == rate boundary is forced); congressional rates are checked after every manually ended interval of random appear/disappear/burst histories.",
+  note="Trusted: u128 rational arithmetic; hooks H5/H6 forward to the private functions unchanged.",
+  ref="DESIGN.md §7 C12"),
+ "C13": dict(
+  technique="runtime monitoring: entries at a counting sink vs reference over exhaustively enumerated op sequences and concurrent drops; Miri + TSan",
+  level="Exploration over histories and schedules: every single-thread op sequence up to a depth bound over a parent with a Slot and a LazySlot (open wait/discard incl. second open, mutate, drop guard, wait_for_data, force-flush guard) is executed and the appended entries compared with the reference after every op; concurrently, parent / guards / force guard are dropped on separate threads with perturbation between the guard's send and the release of its flush guard.",
+  note="Trusted: counting sink; linearization-invariant assertions only in the concurrent part.",
+  ref="DESIGN.md §7 C13"),
 }
 
 NOT_YET = "check not built yet in this round (design in DESIGN.md §7); not claimed"
